@@ -416,6 +416,9 @@ class C39(HistoryProfile):
 
 # -- C28 ------------------------------------------------------------------------------------------
 
+ANY_VALUE = object()
+
+
 class C28(HistoryProfile):
   prop = "C28"
   name = "c28"
@@ -437,7 +440,10 @@ class C28(HistoryProfile):
                                  {"id": "v", "type": "Int", "isFormula": False},
                                  {"id": "w", "type": "Text", "isFormula": False},
                                  {"id": "f", "type": "Any", "isFormula": True,
-                                  "formula": "len(U.lookupRecords(k1=$k1))"}]],
+                                  "formula": "len(U.lookupRecords(k1=$k1))"},
+                                 # an "empty column", as the Grist client creates them: it turns
+                                 # into a data column with the first value written to it
+                                 {"id": "e", "type": "Any", "isFormula": True, "formula": ""}]],
               ["BulkAddRecord", "U", [None] * 4, {"k1": [1, 1, 2, 3], "k2": ["a", "b", "a", ""],
                                                   "v": [5, 5, 7, 0]}]]}]
 
@@ -464,8 +470,9 @@ class C28(HistoryProfile):
       return {"k": "bundle", "ops": ["remove_row"], "a": [["RemoveRecord", "U", rng.choice(rows)]]}
     # an upsert
     n = rng.choice([1, 1, 2, 3])
-    rcols = rng.choice([["k1"], ["k2"], ["k1", "k2"], [], ["k1", "k2"], ["f"], ["id"]])
-    vcols = rng.choice([["v"], ["w"], ["v", "w"], [], ["v"], ["k2", "v"]])
+    rcols = rng.choice([["k1"], ["k2"], ["k1", "k2"], [], ["k1", "k2"], ["f"], ["id"], ["e"], ["k1", "e"]])
+    vcols = rng.choice([["v"], ["w"], ["v", "w"], [], ["v"], ["k2", "v"], ["e"]])
+    vcols = [c for c in vcols if c not in rcols]
     require = {c: [self._val(rng, c, rows) for _ in range(n)] for c in rcols}
     values = {c: [self._val(rng, c, rows) for _ in range(n)] for c in vcols}
     opts = {}
@@ -528,7 +535,7 @@ class C28(HistoryProfile):
     if not out.ok:
       raise vio(sim, "valid-upsert-rejected", "%s raised %s: %s" % (a[0], out.error, json.dumps(a, default=repr)[:300]))
     exp_rows, exp_ret, n_add = model
-    cols = ["k1", "k2", "v", "w"]
+    cols = ["k1", "k2", "v", "w", "e"]
     got = {r: {c: post[tid][3][c][i] for c in cols} for i, r in enumerate(post[tid][2])}
     pre_ids = set(pre[tid][2])
     new_ids = sorted(set(got) - pre_ids)
@@ -540,6 +547,8 @@ class C28(HistoryProfile):
     for r, rec in exp_rows.items():
       rr = mapping.get(r, r)
       for c in cols:
+        if rec[c] is ANY_VALUE:
+          continue
         if eq.norm(got[rr][c]) != eq.norm(rec[c]):
           raise vio(sim, "upsert-cells", "U[%s].%s = %r, reference upsert gives %r (%s)" % (
             rr, c, got[rr][c], rec[c], json.dumps(a, default=repr)[:300]))
@@ -590,7 +599,7 @@ class C28(HistoryProfile):
       return None          # formula / id keys: not modelled
     dv = DocView(pre)
     tv = lm.TableView(pre, dv, "U")
-    cols = ["k1", "k2", "v", "w"]
+    cols = ["k1", "k2", "v", "w", "e"]
     rows = {r: {c: pre["U"][3][c][i] for c in cols} for i, r in enumerate(pre["U"][2])}
     do_update = opts.get("update", True)
     do_add = opts.get("add", True)
@@ -600,7 +609,10 @@ class C28(HistoryProfile):
     for i in range(n):
       keys = {}
       for c in require:
-        v = lm.convert_key(tv.col_pure(c), lm.rich(tv.col_pure(c), require[c][i]))
+        if c == "e" and tv.col_pure(c) == "Any":
+          v = require[c][i]          # Any converts nothing (the pool for `e` is small ints)
+        else:
+          v = lm.convert_key(tv.col_pure(c), lm.rich(tv.col_pure(c), require[c][i]))
         if v is U:
           return None
         keys[c] = ("eq", v)
@@ -622,7 +634,18 @@ class C28(HistoryProfile):
           updates.append((r, {c: values[c][i] for c in values}))
         ids = list(match) if match else ids
       ret.append(ids)
-    defaults = {"k1": 0, "k2": "", "v": 0, "w": ""}
+    # (the empty column has no default until its first value gives it a type)
+    ecol = dv.tables["U"].cols.get("e")
+    edef = None
+    if ecol is not None and not ecol.isFormula:
+      edef = {"Numeric": 0.0, "Int": 0, "Text": "", "Bool": False}.get(ecol.pure)
+    defaults = {"k1": 0, "k2": "", "v": 0, "w": "", "e": edef}
+    if ecol is not None and ecol.isFormula and ("e" in require or "e" in values) and (adds or updates):
+      # This action gives the empty column its type (guessed by the Node side from the values);
+      # cells it does not write get that type's default, which is not modelled.
+      for rec in rows.values():
+        rec["e"] = ANY_VALUE
+      defaults["e"] = ANY_VALUE
     for k, rec in enumerate(adds):
       rows[-(k + 1)] = dict(defaults, **rec)
     for r, vals in updates:
@@ -636,7 +659,9 @@ ALL_TYPES = ["Int", "Numeric", "Text", "Bool", "Choice", "ChoiceList", "Date", "
              "DateTime:America/New_York", "Any"]
 UNION_POOL = [0, 1, -1, 2.5, 1e10, "", "a", "abc", "1", "2.5", "true", "2020-01-02", None, True, False,
               ["L", "a", "b"], ["L"], ["L", 1, 2], 1577923200, 86400.5, "1e3", " 7 ", "é", "[1, 2]",
-              '["a"]', "0", "no", 10 ** 12]
+              '["a"]', "0", "no", 10 ** 12,
+              # the same number as int and as float: equal, hash alike, convert differently
+              1.0, 2, 2.0, 3, 3.0]
 
 
 def op_modify_type_any(g, dv, protected):
@@ -647,7 +672,7 @@ def op_modify_type_any(g, dv, protected):
   if not cands:
     return None
   t, c = rng.choice(cands)
-  types = list(ALL_TYPES)
+  types = list(ALL_TYPES) + ["Any", "Any", "Any"]
   for o in gen.data_tables(dv):
     types += ["Ref:" + o.tableId, "RefList:" + o.tableId]
   new = rng.choice([x for x in types if x != c.type])
@@ -669,7 +694,13 @@ def op_union_values(g, dv, protected):
     return None
   c = rng.choice(cols)
   rows = rng.sample(t.row_ids, min(len(t.row_ids), rng.randint(1, 4)))
-  return [["BulkUpdateRecord", t.tableId, rows, {c.colId: [rng.choice(UNION_POOL) for _ in rows]}]]
+  vals = [rng.choice(UNION_POOL) for _ in rows]
+  if len(rows) >= 2 and rng.random() < 0.25:
+    # the same number as int and as float in two rows of one column (they stay apart only in an
+    # Any column; typed columns normalise one of them on the way in)
+    n = rng.choice([1, 2, 3, 7])
+    vals[:2] = rng.sample([n, float(n)], 2)
+  return [["BulkUpdateRecord", t.tableId, rows, {c.colId: vals}]]
 
 
 gen.OPS["modify_type_any"] = op_modify_type_any
@@ -854,7 +885,8 @@ class C16(HistoryProfile):
                                        keep=("add_records", "add_table", "add_formula_column",
                                              "rename_any", "add_data_column"), p_off=0.3)
     cfg["formula_kinds"] = ["arith", "str", "ref", "reflist", "lookup", "lookupone", "count", "all",
-                            "contains", "find", "prevnext", "prevnext", "lookup"]
+                            "contains", "find", "prevnext", "prevnext", "lookup", "lazy", "lazy",
+                            "twopath"]
     cfg["rich_specs"] = True
     cfg["no_sort_by"] = True     # legacy sort_by= strings are not among the rewritten forms
     return cfg
@@ -974,6 +1006,13 @@ VALID_TEMPLATES = [
   "if ${a} > 1:\n  r = 'big'\nelif ${a} == 1:\n  r = 'one'\nelse:\n  r = 'small'\nr",
   "with open.__class__ and __import__('contextlib').nullcontext(${a}) as v:\n  w = v\nw",
   "class K:\n  z = 3\nK.z + ${a}", "import math\nmath.floor(${b} or 0)", "from math import floor\nfloor(${b} or 0) + ${a}",
+  # multi-line string literals in every syntactic position (the method body is indented wholesale
+  # and the literals have to come out unchanged)
+  'len([c for c in """p\nq"""]) + ${a}', '[c for c in "ab" if c in """a\n  b"""]',
+  '(lambda v="""a\nb""": len(v))() + ${a}', 'def g(v="""x\n y"""):\n  return v\ng()',
+  'with __import__("contextlib").nullcontext("""a\nb""") as v:\n  w = len(v)\nw + ${a}',
+  '{"""k\n1""": ${a}}', 'f"""{${a}}\n  x"""', '("""a\nb""", ${a})[0]', 'x = ["""l\n m""" for _ in range(2)]\nx[1]',
+  'len("""\n\n""") if ${a} else """\n"""',
 ]
 
 
@@ -1250,6 +1289,17 @@ class C15(HistoryProfile):
                         {"recalcWhen": rng.choice([0, 1, 2])},
                         {"recalcWhen": rng.choice([0, 1, 2]), "recalcDeps": (["L"] + deps) if deps else None}])
       # (through the metadata record, as the client does: ModifyColumn cannot carry a list value)
+      if rng.random() < 0.3 and t.row_ids and datacols:
+        # ... and, in the same bundle, an edit of a (former or future) dependency. The model does
+        # not say what such a bundle must do; undo and redo still have to restore what it did.
+        d = rng.choice(datacols)
+        v = rng.choice([0, 1, 2, 3, 5]) if d.pure in ("Int", "Numeric") else rng.choice(["", "a", "b"])
+        acts = [["UpdateRecord", "_grist_Tables_column", c.ref, upd],
+                ["UpdateRecord", "G", rng.choice(t.row_ids), {d.colId: v}]]
+        if rng.random() < 0.5:
+          acts.reverse()
+        st.setdefault("pending", []).extend([{"k": "undo"}, {"k": "redo"}])
+        return {"k": "bundle", "ops": ["reconfigure", "update"], "a": acts}
       return {"k": "bundle", "ops": ["reconfigure"], "a": [["UpdateRecord", "_grist_Tables_column", c.ref, upd]]}
     if r < 0.37 and datacols:
       c = rng.choice(datacols)
